@@ -515,7 +515,11 @@ WF = [("effG", lambda p: p["effG"] > 0), ("effF", lambda p: p["effF"] > 0), ("ne
 
 def wf_failures(params):
     """which hypotheses of the C06 theorems (`HerdOK`) the captured parameters violate"""
-    return [(p["name"], k) for p in params for k, f in WF if not f(p)]
+    bad = [(p["name"], k) for p in params for k, f in WF if not f(p)]
+    keys = [p["species"] for p in params if p["isMilk"]]
+    if len(set(keys)) != len(keys):   # MilkKeysDistinct (C06_transfer)
+        bad.append(("dairy herds", "species keys not distinct"))
+    return bad
 
 
 # ---------------------------------------------------------------------------------------------
@@ -551,8 +555,15 @@ def main_case(ctx, case, prop, compare=True):
         ctx.count("hypothesis-violated:" + k)
     if wf:
         ctx.disagree("theorem-hypotheses", dict(short, failures=wf[:5]), "captured parameters", "HerdOK")
-    st, months = parse_run(ctx.lean([run_request(country, params, feed, grass)])[0])
+    if compare:
+        st, months = parse_run(ctx.lean([run_request(country, params, feed, grass)])[0])
+    else:   # replay: only the real code and the executable property
+        st, months = ("ok", None) if not res["error"] else ("skipped", None)
     summ = {"error": res["error"], "model": st, "nspecies": len(params)}
+    if not compare and res["error"]:
+        if prop == "C06":
+            ctx.violation("main:raises-" + str(res["error"]).split(":")[0], "main() raised (%s) for %s/%s" % (res["error"], code, sc), case)
+        return summ
     if res["error"] or st == "err":
         ie, me = res["error"], (months if st == "err" else None)
         ctx.count("main:impl-error:%s/model:%s" % (ie, me))
@@ -560,7 +571,7 @@ def main_case(ctx, case, prop, compare=True):
         # (C06_no_error); when the model executed at Float raises the same assert it is an ulp effect
         # of the float arithmetic (runtime note only); when only the real code raises, the run of this
         # country/series simply does not exist: the property fails for it.
-        if ie and not me:
+        if ie and not me and prop == "C06":
             ctx.violation("main:raises-" + str(ie).split(":")[0], "main() raised (%s) for %s/%s where the model completes" % (ie, code, sc), case)
         elif ie != me:
             ctx.disagree("run:error", short, ie, me)
@@ -616,7 +627,7 @@ def main_case(ctx, case, prop, compare=True):
             if key in ("feed-overuse", "grass-overuse"):
                 continue
             ctx.violation("main:" + key, what, dict(case, **where))
-        for m in months:
+        for m in (months or []):
             for r in m["recs"]:
                 ctx.count("slaughter:" + ("none" if r["slaughter"] == 0 else "hours-limited" if r["slaughter"] == r["rate"] else "target-limited"))
                 partial += r["starvingPre"] > 0
